@@ -22,7 +22,7 @@ def extra_letters(pal):
 def railed_spec(case):
     if case["fam"] == "mux":
         return mux_spec([tuple(x) for x in case["inputs"]], case["pal"], case["rs_list"], rails=True, by_rail=case["by_rail"])
-    spec = spec_from_forest(case["f"], case["pal"], 1, 0.37, extra=extra_letters(case["pal"]))
+    spec = spec_from_forest(case["f"], case["pal"], case.get("pol", 1), 0.37 if case.get("pol", 1) > 0 else 0.0, extra=extra_letters(case["pal"]))
     for c in spec["comps"]:  # letters carry their limits inside the ctor kwargs
         if "limits" in c["a"]:
             c["lim"] = c["a"].pop("limits")
@@ -52,12 +52,12 @@ def check_case(case):
     s = build(spec)
     res.stats["transitions"] += len(spec["comps"]) + 2
     try:
-        df, _ = quiet_call(s.solve)
+        df, _ = quiet_call(s.solve, vtol=1e-6, itol=1e-6)  # explicit, so that the two methods cannot differ through their defaults
     except (RuntimeError, ValueError) as e:
         res.classes.add("solve-raised")
         return res
     try:
-        rr, _ = quiet_call(s.rail_rep)
+        rr, _ = quiet_call(s.rail_rep, vtol=1e-6, itol=1e-6)
     except Exception as e:
         res.v(("C08.rail_rep-raises", type(e).__name__), str(e))
         return res
@@ -135,7 +135,7 @@ def check_case(case):
     if spec.get("phases"):
         for ph in phases:
             try:
-                r1, _ = quiet_call(s.rail_rep, phase=ph)
+                r1, _ = quiet_call(s.rail_rep, phase=ph, vtol=1e-6, itol=1e-6)
             except Exception as e:
                 res.v(("C08.single-phase-raises", type(e).__name__), str(e))
                 continue
@@ -166,6 +166,8 @@ def gen_cases(tier):
                     forms = [True] if any(mask) else []
                 for by_rail in forms:
                     yield dict(fam="tree", f=f, pal=pal, mask=list(mask), by_rail=by_rail)
+                if any(mask) and n <= 3:
+                    yield dict(fam="tree", f=f, pal=pal, mask=list(mask), by_rail=False, pol=-1)   # negative supply rails
                 if n <= 2 or (tier != "quick" and n == 3):
                     for c in spec["comps"][1:]:
                         opts = pc_options(c, PH2, full=False)[1:2]
